@@ -13,6 +13,8 @@ def bc_definition(c):
     if not ok:
         return None
     n = len(nodes)
+    if n > 200:
+        return cg.brandes_fast(nodes, w, c["weighted"], c["spec"][0], c["normalized"])
     d, sig = cg.all_pairs(nodes, w, c["weighted"])
     out = {}
     directed = c["spec"][0]
@@ -78,6 +80,11 @@ class C05(props.BaseProp):
             if weighted and not big:
                 cg.weight_variant(r2, c)
             cases.append(c)
+            if i % 1500 == 750:
+                # above 1024 nodes (oracle only): a size-dependent slip in the parallel arm (batching, chunking)
+                h = cg.huge_case(r2, "bh%d" % i)
+                h.update(weighted=r2.below(2) == 1, normalized=r2.below(2) == 1, withdef=False)
+                cases.append(h)
         return cases
 
     def to_harness(self, c):
@@ -91,12 +98,14 @@ class C05(props.BaseProp):
     def case_json(self, c):
         return {"id": c["id"], "spec": list(c["spec"]), "nodes": c["nodes"], "edges": [list(e) for e in c["edges"]],
                 "weighted": bool(c["weighted"]), "normalized": bool(c["normalized"]), "withdef": bool(c["withdef"]),
-                "wscale": c.get("wscale", 0)}
+                "wscale": c.get("wscale", 0), "nomodel": bool(c.get("nomodel"))}
 
     def case_from_json(self, j):
         c = cg.graph_from_json(j)
         c.update(id=j.get("id", "replay"), weighted=j["weighted"], normalized=j["normalized"],
                  withdef=j.get("withdef", len(j["nodes"]) <= 8))
+        if j.get("nomodel"):
+            c["nomodel"] = True
         return c
 
     def oracle(self, c, o):
@@ -130,7 +139,7 @@ class C05(props.BaseProp):
 
     def stats_key(self, c, o):
         n = len(cg.effective(c)[1])
-        return ["dir%d_multi%d" % (c["spec"][0], c["spec"][1]), "n_%s" % (n if n <= 8 else "21-23"),
+        return ["dir%d_multi%d" % (c["spec"][0], c["spec"][1]), "n_%s" % (n if n <= 8 else ("21-23" if n < 100 else ">1024")),
                 "weighted%d_norm%d" % (c["weighted"], c["normalized"])] + \
                ["outcome_%s" % "_".join(str(ob[1][0][0]) for ob in o if ob[0] == 1)]
 
